@@ -52,7 +52,7 @@ def struct_min(d):
     if kind == "text":
         return _text_min(o["s"])
     if kind == "rule":
-        return 2 if _wide(g("title") or "") or _wide(g("characters")) else 1
+        return 2 if _wide(gen.optstr(g("title")) or "") or _wide(g("characters")) else 1
     if kind in ("bar", "pbar"):
         return 1
     if kind in ("nomeasure", "cast", "align", "constrain", "styled"):
@@ -63,7 +63,7 @@ def struct_min(d):
     if kind == "panel":
         _, r, _, l = unpack(g("padding"))
         m = struct_min(kids[0]) + 2 + l + r
-        title = g("title")
+        title = gen.optstr(g("title"))
         if title:
             m = max(m, 4 + max(cw(c) for c in title) + 2)
         return m
@@ -72,7 +72,7 @@ def struct_min(d):
     if kind == "columns":
         m = max([struct_min(k) for k in kids] or [1])
         if g("title"):
-            m = max(m, _text_min(g("title")))
+            m = max(m, _text_min(gen.optstr(g("title"))))
         return m
     if kind == "tree":
         shape = o.get("shape", "flat")
@@ -98,6 +98,10 @@ def struct_min(d):
         total = 0
         for i in range(ncols):
             cm = max(1, _text_min(gen.HEADERS[i % len(gen.HEADERS)]), _text_min(gen.FOOTERS[i % len(gen.FOOTERS)]))
+            if i == 0:
+                for name in ("hdr", "ftr"):
+                    if g(name) is not None:
+                        cm = max(cm, _text_min(gen.optstr(g(name))))
             for r in range(nrows):
                 cm = max(cm, struct_min(kids[r * ncols + i]))
             mw = cols[i].get("min_width")
@@ -112,6 +116,6 @@ def struct_min(d):
             total += (2 if g("show_edge") else 0) + max(0, ncols - 1)
         for name in ("title", "caption"):
             if g(name):
-                total = max(total, _text_min(g(name)))
+                total = max(total, _text_min(gen.optstr(g(name))))
         return max(1, total)
     raise ValueError("unknown kind %r" % (kind,))
